@@ -310,6 +310,7 @@ theorem evictLoop_ok (cands : List Nat) (s : Pool) (cnt : Nat) (parents ev : Lis
 def AncGood (s : Pool) (e : Entry) : AncRes → Prop
   | .ok s' e' _ => InputsOK s' ∧ Shrinks s' s ∧ e'.tx = e.tx
   | .panic s' => InputsOK s' ∧ Shrinks s' s
+  | .rejAfter s' => InputsOK s' ∧ Shrinks s' s
   | .rej => True
 
 theorem recordAncestors_good {s s0 : Pool} (h : InputsOK s) (hs : Shrinks s s0) (e : Entry) (a p ev : List Nat) :
@@ -333,8 +334,10 @@ theorem checkAnc_ok {s : Pool} (h : InputsOK s) (e : Entry) : AncGood s e (check
         (((byEvictKey s.entries).filter (·.tx.id ∈ (txAncestors s e.tx).2.2)).map (·.tx.id)) s
         ((txAncestors s e.tx).1.length + 1) (txAncestors s e.tx).2.1 [] h
       split
-      · exact recordAncestors_good hl.1 hl.2 e _ _ _
       · exact hl
+      · split
+        · exact recordAncestors_good hl.1 hl.2 e _ _ _
+        · exact hl
     · trivial
 
 
@@ -427,6 +430,7 @@ theorem inputsOK_addEntry {s : Pool} (h : InputsOK s) (t : Tx) (st : Status) (ts
       have hg := checkAnc_ok h (Entry.fresh t st ts)
       split
       · exact h
+      · rename_i s' heq; rw [heq] at hg; exact hg.1
       · rename_i s' heq; rw [heq] at hg; exact hg.1
       · rename_i s1 e ev heq
         rw [heq] at hg
